@@ -426,7 +426,37 @@ func (e *authEnv) addrOrTag(s string) string {
 	return s
 }
 
-func (e *authEnv) tfCreate(w *tfWorld, sender, sub, class string) {
+func (e *authEnv) tfCreate(w *tfWorld, sender, sub, class string) { e.tfCreateX(w, sender, sub, class, false) }
+
+// tfRecreate: a denom that exists (whoever administers it now, and in particular after its admin was
+// renounced) can never be created again: creating it anew would hand the admin role back to the creator.
+func (e *authEnv) tfRecreate(w *tfWorld) {
+	seen := map[string]bool{}
+	for _, d := range append([]*tfDenom{}, w.denoms...) {
+		c := d.canon()
+		if seen[c] {
+			continue
+		}
+		seen[c] = true
+		cur := w.ref[c]
+		if cur != "-" && e.r.Intn(3) != 0 {
+			continue
+		}
+		sub := d.sub
+		if sub == "" {
+			sub = "-"
+		}
+		class := "recreate-existing"
+		if cur == "-" {
+			class = "recreate-renounced"
+		} else if cur != d.creator {
+			class = "recreate-foreign-admin"
+		}
+		e.tfCreateX(w, d.creator, sub, class, true)
+	}
+}
+
+func (e *authEnv) tfCreateX(w *tfWorld, sender, sub, class string, exists bool) {
 	h := e.h
 	line := fmt.Sprintf("auth tf.create %s %s", sender, sub)
 	realSub := sub
@@ -455,13 +485,18 @@ func (e *authEnv) tfCreate(w *tfWorld, sender, sub, class string) {
 	}
 	before := listOthers()
 	var newDenom string
-	ok := e.exec("tokenfactory", "CreateDenom", class, true, false, "", line, func(ctx sdk.Context) error {
+	ok := e.exec("tokenfactory", "CreateDenom", class, !exists, false, "", line, func(ctx sdk.Context) error {
 		resp, err := e.tfSrv.CreateDenom(ctx, &tftypes.MsgCreateDenom{Sender: e.addr(sender), Subdenom: realSub})
 		if err == nil {
 			newDenom = resp.NewTokenDenom
 		}
 		return err
 	})
+	if ok && exists {
+		// (already reported by exec as "<…>:accepted"): the reference keeps the admin it had
+		e.o.Emit(line, e.tfObs(resStr(ok), canon, []string{sender, e.cp}, []string{"uosmo", "uosmo"}), true)
+		return
+	}
 	if ok {
 		if newDenom != "factory/"+e.addr(sender)+"/"+realSub || before != listOthers() {
 			e.o.Fail("tokenfactory.CreateDenom:"+class+":foreign-namespace", line+" created="+newDenom)
@@ -587,6 +622,7 @@ func (e *authEnv) tfPhase() {
 	}
 	for round := 0; round < 3; round++ {
 		e.tfLife(w)
+		e.tfRecreate(w)
 		e.tfSweep(w, round == 0)
 	}
 }
